@@ -2,6 +2,7 @@
   Mb2.Build — model of the building side: `new_boxed`, `clone_dyn`, the tag constructors, the two builders.
 -/
 import Mb2.Tags
+import Mb2.Header
 namespace Mb2
 
 /-- result of `new_boxed`: the bytes of the allocation that are initialised (header with patched size ++ content),
@@ -16,7 +17,10 @@ deriving Repr, DecidableEq, Inhabited
 
 /-- write the declared size into a header image -/
 def setSize (k : HK) (hdr : Bytes) (total : Nat) : Bytes :=
-  hdr.take k.sizeOff ++ enc32 total ++ hdr.drop (k.sizeOff + 4)
+  match k with
+  | .hb =>   -- Multiboot2BasicHeader::set_size also recomputes the checksum
+    hdr.take 8 ++ enc32 total ++ enc32 (calcChecksum (le32 hdr 0) (le32 hdr 4) (total % 4294967296))
+  | _ => hdr.take k.sizeOff ++ enc32 total ++ hdr.drop (k.sizeOff + 4)
 
 /-- `new_boxed::<T>(header, slices)` (boxed.rs). `desc` describes `T`. The final `assert_eq!(size_of_val, alloc_size)` panics
     when the type's own size computation disagrees with the allocation. -/
@@ -32,5 +36,193 @@ def newBoxed (p : Profile) (k : HK) (desc : TyDesc) (hdr : Bytes) (slices : List
 
 /-- content of the three string tags: the text, NUL-terminated unless it already ends in NUL -/
 def strContent (s : Bytes) : Bytes := if s.getLast? = some 0 then s else s ++ [0]
+
+end Mb2
+
+namespace Mb2
+
+/-! ### constructors. The argument blob is the little-endian encoding of the arguments (see harness/src/ctor_fam.rs). -/
+
+def zeros (n : Nat) : Bytes := List.replicate n 0
+
+/-- image of a constructed tag: type word, declared size, the initialised bytes `[0, size)`, `size_of_val` -/
+structure Img where
+  typ : Nat
+  flags : Option Nat     -- header-crate tags carry flags in the upper half of the first word
+  size : Nat
+  bytes : Bytes
+  sov : Nat
+deriving Repr, DecidableEq, Inhabited
+
+def mbiHdr (typ size : Nat) : Bytes := enc32 typ ++ enc32 size
+def hdrHdr (typ flags size : Nat) : Bytes := enc16 typ ++ enc16 flags ++ enc32 size
+
+/-- a sized MBI tag built by a struct literal: the size CONSTANT the constructor writes, then the fields in struct order -/
+def sizedImg (typ sizeConst : Nat) (payload : Bytes) : Img :=
+  ⟨typ, none, sizeConst, mbiHdr typ sizeConst ++ payload, roundUp8 (8 + payload.length)⟩
+
+/-- a boxed MBI tag: `new_boxed(TagHeader::new(ID, 0), slices)` -/
+def boxedImg (p : Profile) (typ : Nat) (desc : TyDesc) (slices : List Bytes) : Res Img := do
+  let b ← newBoxed p .tag desc (mbiHdr typ 0) slices
+  pure ⟨typ, none, 8 + slices.flatten.length, b.bytes, b.deallocSize⟩
+
+def sizedHImg (typ flags sizeConst : Nat) (payload : Bytes) : Img :=
+  ⟨typ, some flags, sizeConst, hdrHdr typ flags sizeConst ++ payload, roundUp8 (8 + payload.length)⟩
+
+def chunk24 : Bytes → List Bytes
+  | [] => []
+  | l => if l.length < 24 then [] else l.take 24 :: chunk24 (l.drop 24)
+termination_by l => l.length
+decreasing_by simp; omega
+
+/-- `InformationRequestHeaderTag` descriptor: unchecked subtraction, 4-byte elements -/
+def infoReqDesc : TyDesc :=
+  { baseSize := 8, fixed := 8, align := 8, elem := some 4,
+    dstLen := fun p size => do
+      let d ← usub p W64 size 8
+      if d % 4 ≠ 0 then .panic else .ok (d / 4) }
+
+/-- model of every public constructor (struct field order and size constants as in the Rust sources) -/
+def ctorImpl (p : Profile) (name : String) (blob : Bytes) : Res Img :=
+  let tk (a n : Nat) := slice blob a n
+  match name with
+  | "cmdline" => boxedImg p 1 (Kind.desc .cmdline) (if blob.getLast? = some 0 then [blob] else [blob, [0]])
+  | "loader" => boxedImg p 2 (Kind.desc .loader) (if blob.getLast? = some 0 then [blob] else [blob, [0]])
+  | "module" =>
+    if ¬ le32 blob 4 > le32 blob 0 then .panic
+    else
+      let s := blob.drop 8
+      boxedImg p 3 (Kind.desc .module) (if s.getLast? = some 0 then [tk 0 4, tk 4 4, s] else [tk 0 4, tk 4 4, s, [0]])
+  | "meminfo" => .ok (sizedImg 4 16 (tk 0 4 ++ tk 4 4))
+  | "bootdev" => .ok (sizedImg 5 20 (tk 0 4 ++ tk 4 4 ++ tk 8 4))
+  | "mmap" =>
+    let areas := (chunk24 blob).map fun a => a.take 20 ++ zeros 4
+    boxedImg p 6 (Kind.desc .mmap) [enc32 24, enc32 0, areas.flatten]
+  | "vbe" =>
+    .ok (sizedImg 7 784 (tk 0 8 ++ (tk 8 34 ++ zeros 222 ++ zeros 256) ++
+      (tk 520 27 ++ [UInt8.ofNat (u8At blob 547 % 8)] ++ tk 548 2 ++ [0] ++ tk 551 19 ++ zeros 206)))
+  | "fb" =>
+    let ty := u8At blob 21
+    let rest := blob.drop 24
+    let info : Bytes :=
+      if ty = 0 then
+        let n := (rest.length - 2) / 3
+        enc16 n ++ slice rest 2 (3 * n)
+      else if ty = 1 then rest.take 6
+      else []
+    let tyb : Nat := if ty = 0 then 0 else if ty = 1 then 1 else 2
+    boxedImg p 8 (Kind.desc .fb) [tk 0 8, tk 8 4, tk 12 4, tk 16 4, [UInt8.ofNat (u8At blob 20)], [UInt8.ofNat tyb], [0, 0], info]
+  | "elf" => boxedImg p 9 (Kind.desc .elf) [tk 0 4, tk 4 4, tk 8 4, blob.drop 12]
+  | "apm" => .ok (sizedImg 10 28 (tk 0 2 ++ tk 2 2 ++ tk 4 4 ++ tk 8 2 ++ tk 10 2 ++ tk 12 2 ++ tk 14 2 ++ tk 16 2 ++ tk 18 2))
+  | "efi32" => .ok (sizedImg 11 12 (tk 0 4))
+  | "efi64" => .ok (sizedImg 12 16 (tk 0 8))
+  | "smbios" => boxedImg p 13 (Kind.desc .smbios) [[UInt8.ofNat (u8At blob 0), UInt8.ofNat (u8At blob 1)], zeros 6, blob.drop 8]
+  | "rsdp1" => .ok (sizedImg 14 28 ([82, 83, 68, 32, 80, 84, 82, 32] ++ tk 8 1 ++ tk 9 6 ++ tk 15 1 ++ tk 16 4))
+  | "rsdp2" => .ok (sizedImg 15 44 ([82, 83, 68, 32, 80, 84, 82, 32] ++ tk 8 1 ++ tk 9 6 ++ tk 15 1 ++ tk 16 4 ++ tk 20 4 ++ tk 24 8 ++ tk 32 1 ++ zeros 3))
+  | "network" => boxedImg p 16 (Kind.desc .network) [blob]
+  | "efimmap" =>
+    if le32 blob 0 = 0 then .panic
+    else boxedImg p 17 (Kind.desc .efiMmap) [tk 0 4, tk 4 4, blob.drop 8]
+  | "efidescs" =>
+    let n := blob.length / 40
+    let descs := (List.range n).map fun i => slice blob (40 * i) 4 ++ zeros 4 ++ slice blob (40 * i + 8) 32
+    boxedImg p 17 (Kind.desc .efiMmap) [enc32 40, enc32 1, descs.flatten]
+  | "efibs" => .ok (sizedImg 18 8 [])
+  | "ih32" => .ok (sizedImg 19 12 (tk 0 4))
+  | "ih64" => .ok (sizedImg 20 16 (tk 0 8))
+  | "loadbase" => .ok (sizedImg 21 12 (tk 0 4))
+  | "end" => .ok (sizedImg 0 8 [])
+  | "h_address" => .ok (sizedHImg 2 (le16 blob 0 % 2) 24 (tk 2 4 ++ tk 6 4 ++ tk 10 4 ++ tk 14 4))
+  | "h_console" => .ok (sizedHImg 4 (le16 blob 0 % 2) 12 (enc32 (le32 blob 2 % 2)))
+  | "h_end" => .ok (sizedHImg 0 0 8 [])
+  | "h_entry" => .ok (sizedHImg 3 (le16 blob 0 % 2) 12 (tk 2 4))
+  | "h_efi32" => .ok (sizedHImg 8 (le16 blob 0 % 2) 12 (tk 2 4))
+  | "h_efi64" => .ok (sizedHImg 9 (le16 blob 0 % 2) 12 (tk 2 4))
+  | "h_fb" => .ok (sizedHImg 5 (le16 blob 0 % 2) 20 (tk 2 4 ++ tk 6 4 ++ tk 10 4))
+  | "h_modalign" => .ok (sizedHImg 6 (le16 blob 0 % 2) 8 [])
+  | "h_efibs" => .ok (sizedHImg 7 (le16 blob 0 % 2) 8 [])
+  | "h_reloc" => .ok (sizedHImg 10 (le16 blob 0 % 2) 24 (tk 2 4 ++ tk 6 4 ++ tk 10 4 ++ enc32 (le32 blob 14 % 3)))
+  | "h_inforeq" => do
+    let ids := slice blob 2 ((blob.length - 2) / 4 * 4)
+    let b ← newBoxed p .ht infoReqDesc (hdrHdr 1 (le16 blob 0 % 2) 0) [ids]
+    pure ⟨1, some (le16 blob 0 % 2), 8 + ids.length, b.bytes, b.deallocSize⟩
+  | _ => .panic
+
+end Mb2
+
+namespace Mb2
+
+/-- `DynSizedStructure<H>` itself as target type: `dst_len = header.payload_len()` -/
+def genericDesc (k : HK) : TyDesc :=
+  { baseSize := k.hsize, fixed := k.hsize, align := 8, elem := some 1, dstLen := fun p size => payloadLen p k size }
+
+/-- `clone_dyn(tag)`: `new_boxed(tag.header().clone(), &[&tag.payload()[..tag.header().payload_len()]])`.
+    `T` = the bytes of the tag's in-memory extent (`size_of_val` bytes). -/
+def cloneDyn (p : Profile) (k : HK) (desc : TyDesc) (T : Bytes) : Res Boxed := do
+  let size ← rd32 T k.sizeOff
+  let pl ← payloadLen p k size
+  -- `tag.payload()` = as_bytes()[hsize..]; slicing it to `pl` panics when the header claims more than the view holds
+  if pl > T.length - k.hsize then .panic
+  else newBoxed p k desc (T.take k.hsize) [slice T k.hsize pl]
+
+end Mb2
+
+namespace Mb2
+
+/-! ### the two builders -/
+
+/-- `as_bytes()` of a constructed tag: its `size_of_val` bytes (the padding behind `size` is uninitialised; modelled as 0) -/
+def Img.asBytes (i : Img) : Bytes := i.bytes ++ zeros (i.sov - i.bytes.length)
+
+/-- builder slots of `multiboot2::Builder` in the order `build()` emits them; `true` = repeatable (a `Vec`) -/
+def mbiSlots : List (String × Bool) :=
+  [("cmdline", false), ("loader", false), ("module", true), ("meminfo", false), ("bootdev", false), ("mmap", false),
+   ("vbe", false), ("fb", false), ("elf", false), ("apm", false), ("efi32", false), ("efi64", false), ("smbios", true),
+   ("rsdp1", false), ("rsdp2", false), ("network", false), ("efimmap", false), ("efibs", false), ("ih32", false),
+   ("ih64", false), ("loadbase", false), ("custom", true)]
+
+/-- slots of `multiboot2_header::Builder` in emission order -/
+def hdrSlots : List (String × Bool) :=
+  [("h_inforeq", false), ("h_address", false), ("h_entry", false), ("h_console", false), ("h_fb", false), ("h_modalign", false),
+   ("h_efibs", false), ("h_efi32", false), ("h_efi64", false), ("h_reloc", false)]
+
+/-- builder state: per slot the stored tags -/
+abbrev BState := List (String × List Img)
+
+def BState.get (st : BState) (slot : String) : List Img :=
+  match st.find? (·.1 == slot) with | some x => x.2 | none => []
+
+/-- a builder method: assignment for `Option` slots, push for `Vec` slots -/
+def BState.put (st : BState) (slot : String) (multi : Bool) (img : Img) : BState :=
+  (slot, if multi then st.get slot ++ [img] else [img]) :: st.filter (·.1 != slot)
+
+/-- the tag an op hands to the builder (the real constructor of that kind; `custom`: a generic tag via new_boxed) -/
+def opImg (p : Profile) (name : String) (blob : Bytes) : Res Img :=
+  if name = "custom" then
+    if le32 blob 0 ≤ 21 then .panic      -- add_custom_tag: "Only for custom types!"
+    else boxedImg p (le32 blob 0) (genericDesc .tag) [blob.drop 4]
+  else ctorImpl p name blob
+
+def runOps (p : Profile) (slots : List (String × Bool)) : BState → List (String × Bytes) → Res BState
+  | st, [] => .ok st
+  | st, (name, blob) :: ops =>
+    match opImg p name blob with
+    | .ok img =>
+      let multi := match slots.find? (·.1 == name) with | some x => x.2 | none => false
+      runOps p slots (st.put name multi img) ops
+    | .panic => .panic | .oob => .oob | .ub => .ub
+
+/-- `Builder::build()` of the boot-information builder -/
+def buildMbi (p : Profile) (ops : List (String × Bytes)) : Res Boxed := do
+  let st ← runOps p mbiSlots [] ops
+  let tags := mbiSlots.flatMap fun s => st.get s.1
+  newBoxed p .bi (genericDesc .bi) (enc32 0 ++ enc32 0) (tags.map Img.asBytes ++ [(sizedImg 0 8 []).asBytes])
+
+/-- `Builder::build()` of the header builder -/
+def buildHdr (p : Profile) (arch : Nat) (ops : List (String × Bytes)) : Res Boxed := do
+  let st ← runOps p hdrSlots [] ops
+  let tags := hdrSlots.flatMap fun s => st.get s.1
+  let hdr0 := enc32 HMAGIC ++ enc32 arch ++ enc32 0 ++ enc32 (calcChecksum HMAGIC arch 0)
+  newBoxed p .hb (genericDesc .hb) hdr0 (tags.map Img.asBytes ++ [(sizedHImg 0 0 8 []).asBytes])
 
 end Mb2
